@@ -69,7 +69,8 @@ def r2(ctx):
                              'are not governed by the insert / delete probabilities' % (sg.what, sg.term.span['line'] if sg.term else 0), sg.term.span if sg.term else None)
             runs = [sg for sg in segs if sg.kind in ('each', 'nest')]
             if len(segs) >= 1 and all(sg.kind != 'opaque' for sg in segs):
-                ctx.require(len(runs) == 1 and len(segs) == 1 and match(core(runs[0].src), Call('Iterator::enumerate', Call('CharString::chars', Call('CharString::new', ('arg', 2, ANY), ANY)))) and not runs[0].conds,
+                CHARS_ = Call('CharString::chars', Call('CharString::new', ('arg', 2, ANY), ANY))
+                ctx.require(len(runs) == 1 and len(segs) == 1 and (match(core(runs[0].src), Call('Iterator::enumerate', CHARS_)) or match(core(runs[0].src), CHARS_)) and not runs[0].conds,
                             tf[0], 'single-pass', 'the result is one pass over enumerate(CS::new(text, use_graphemes).chars())',
                             'the result is built as %s' % [repr(x)[:120] for x in segs])
     f, outer, inner = _anchors(ctx)
@@ -87,7 +88,7 @@ def r2(ctx):
         ws_t = any(pol is True and match(t, Call(WS, ch)) for t, pol in atoms)
         ws_f = any(pol is False and match(t, Call(WS, ch)) for t, pol in atoms)
         span = inner.blocks[blk].term.span
-        if c[0] == 'const' and const_str(c) == '':
+        if const_str(c) == '':
             seen['empty'] += 1
             lt = any(pol is True and match(t, ('bin', 'Lt', draw, DW)) for t, pol in atoms)
             ctx.require(ws_t and lt, inner, 'delete-guard', 'a character is removed only if it is whitespace and r < dw_p (strict)',
